@@ -243,7 +243,7 @@ pub fn coset_table(
                     }
                 }
                 for w in subgroup_gens {
-                    let c = table.canon(1);
+                    let c = table.canon(0);
                     scan_and_connect(&mut table, w, c);
                 }
             }
